@@ -82,7 +82,7 @@ func (lex *LexScanner) ScanFunc(r ybase.Reader) int {
 	}
 	switch r.Peek() {
 	case ';': // comment
-		r.DiscardWhile(func(r rune) bool { return r != '\n' })
+		r.DiscardWhile(func(r rune) bool { return r != '\n' && r != ybase.EOF })
 		return lex.ScanFunc(r)
 	case 'C', 'D', 'E', 'F', 'G', 'A', 'B':
 		return nextRet(SYLLABLE)
@@ -140,7 +140,7 @@ func (lex LexScanner) scanDigits(r ybase.Reader) bool {
 func (lex LexScanner) isSymbolRune(r rune) bool {
 	// not beginning of slash chord, values, comment
 	// no spaces
-	return !lex.isBeginningOfNextOfSymbol(r) && !unicode.IsSpace(r)
+	return r != ybase.EOF && !lex.isBeginningOfNextOfSymbol(r) && !unicode.IsSpace(r)
 }
 
 func (LexScanner) isBeginningOfNextOfSymbol(r rune) bool {
@@ -164,7 +164,7 @@ func (lex LexScanner) scanSymbol(r ybase.Reader) bool {
 }
 
 func (lex LexScanner) isMetadataRune(r rune) bool {
-	return !strings.ContainsRune("{}=,", r)
+	return r != ybase.EOF && !strings.ContainsRune("{}=,", r)
 }
 
 func (lex LexScanner) scanMetadata(r ybase.Reader) bool {
